@@ -149,6 +149,21 @@ func (lc *linCtx) lenVar(x ssa.Value) linExpr {
 		n := lc.of(mk.Len)
 		lc.def().facts = append(lc.def().facts, geq(e, n), geq(n, e))
 	}
+	// []rune(s) has at most len(s) elements (one per character); string(runes) at least len(runes) bytes
+	if cv, ok := lc.strip(x).(*ssa.Convert); ok && lc.depth < 20 {
+		switch runeConversion(cv) {
+		case 1: // string -> []rune
+			lc.depth++
+			ls := lc.lenVar(cv.X)
+			lc.depth--
+			lc.def().facts = append(lc.def().facts, geq(ls, e))
+		case 2: // []rune -> string
+			lc.depth++
+			lr := lc.lenVar(cv.X)
+			lc.depth--
+			lc.def().facts = append(lc.def().facts, geq(e, lr))
+		}
+	}
 	switch y := lc.strip(x).(type) {
 	case *ssa.BinOp:
 		// string concatenation: the lengths add up
@@ -254,6 +269,9 @@ func (lc *linCtx) id1(v ssa.Value) string {
 	case *ssa.Global:
 		return "g:" + x.Pkg.Pkg.Path() + "." + x.Name()
 	case *ssa.Convert:
+		if runeConversion(x) != 0 {
+			return "rn(" + lc.id(x.X) + ")" // another length: characters, not bytes
+		}
 		return lc.id(x.X)
 	case *ssa.ChangeInterface:
 		return lc.id(x.X)
@@ -1551,4 +1569,27 @@ func (c *Ctx) lenEqSiblings(n *types.Named, fi int) []int {
 		}
 	}
 	return res[fi]
+}
+
+// runeConversion: 1 for string -> []rune, 2 for []rune -> string, 0 otherwise (conversions that keep the length).
+func runeConversion(cv *ssa.Convert) int {
+	isStr := func(t types.Type) bool {
+		b, ok := t.Underlying().(*types.Basic)
+		return ok && b.Info()&types.IsString != 0
+	}
+	isRunes := func(t types.Type) bool {
+		sl, ok := t.Underlying().(*types.Slice)
+		if !ok {
+			return false
+		}
+		b, ok := sl.Elem().Underlying().(*types.Basic)
+		return ok && (b.Kind() == types.Int32 || b.Kind() == types.Rune)
+	}
+	switch {
+	case isStr(cv.X.Type()) && isRunes(cv.Type()):
+		return 1
+	case isRunes(cv.X.Type()) && isStr(cv.Type()):
+		return 2
+	}
+	return 0
 }
